@@ -36,6 +36,10 @@ fn main() {
     let a = Args::parse(argv);
     install_panic_hook();
     let mut out = Out::open(&a.str("out", "-"));
+    // a library call that does not return within the limit is a hang: the input is written to <out>.hang.json, exit status 7
+    if cmd == "record" || cmd == "replay" || cmd == "rerun" {
+        drv_decode::start_watchdog(a.str("out", "-"), a.num("hang_s", 20));
+    }
     match (cmd.as_str(), family.as_str()) {
         ("record", "frame_new") => drv_frame::rec_frame_new(&a, &mut out),
         ("record", "sfx") => drv_frame::rec_sfx(&a, &mut out),
